@@ -15,6 +15,8 @@ for d in seeded/*/; do
   [ -f $d/patch.diff ] || continue
   prop=$(python3 -c "import json;print(json.load(open('$d/meta.json'))['property'])")
   checks="$prop ${extra[$prop]}"
+  [ -n "$OWN_ONLY" ] && checks="$prop"
+  [ -n "$ONLY_NEW" ] && grep -q "\"$tier\"" $d/meta.json && continue
   cd $REPO
   if ! git diff --quiet; then echo "repo dirty"; exit 9; fi
   if ! git apply $ROOT/$d/patch.diff 2>/dev/null; then
